@@ -33,7 +33,7 @@ COMPONENTS = {
 }
 ASSUMPTIONS = [
     "isotropic Coulomb friction; tangential restitution e_F only on sphere-plane contacts (Moreau, RATTLE, DualStormerVerlet)",
-    "energy clause only for scenes whose contacts share one restitution coefficient (Newton's law may increase energy term-wise for different e_i in simultaneous impacts)",
+    "energy clause only for scenes whose contacts share one restitution coefficient (Newton's law may increase energy term-wise for different e_i in simultaneous impacts); an impact is the whole episode during which percussions act: the energy after the episode is compared with the energy before it, and step by step only in free flight",
     "sessions in which the solver reports non-convergence are discards",
 ]
 REQUIRED_PROBES = {"quick": ["closed_contact_step", "impact_step", "slip_step", "stick_step", "open_step", "energy_checked_step"]}
@@ -134,6 +134,7 @@ def monitor(R, out, log, plan):
         out["violations"].append(violation(cls, sig, detail))
 
     T_prev = kinetic(B, q[0], u[0])
+    episode = {"T0": None, "start": None, "kinds": set()}
     for k in range(1, nt):
         restore_basis(R, k)
         P = PN[k]
@@ -243,13 +244,39 @@ def monitor(R, out, log, plan):
         # -------- energy
         T = kinetic(B, q[k], u[k])
         if plan["free"] and B.scene.get("common_eN") is not None:
+            # "impacts never increase the kinetic energy": an impact is the whole episode during which percussions act
+            # (position-level schemes may need two steps to turn an oblique sphere-sphere contact around; the energy
+            # may move between those steps).  Compared: the energy when the episode is over vs. the energy before it
+            # began; between episodes (free flight, no forces) the energy must stay constant step by step.
             out["probes"]["energy_checked_step"] += 1
-            dT = T - T_prev
-            worst["dT"] = max(worst["dT"], dT / (1e-12 + T_prev))
-            if dT > 1e-9 * T_prev + 100 * ftol * mscale * (1 + float(np.max(np.abs(u[k])))):
-                kinds = sorted({type(contacts[i]).__name__ for i in range(len(contacts)) if active[i]}) or ["none"]
-                bad("energy_increase", f"{name}/{'+'.join(kinds)}", f"step {k}: kinetic energy rises from {T_prev:.6e} to {T:.6e} (+{dT / T_prev:.2e}) in a force-free frictionless scene with e_N={B.scene['common_eN']}")
-                return
+            etol = 100 * ftol * mscale * (1 + float(np.max(np.abs(u[k]))))
+            any_active = bool(np.any(active))
+            if any_active and episode["T0"] is None:
+                episode.update(T0=T_prev, start=k, kinds=set())
+            if any_active:
+                episode["kinds"] |= {type(contacts[i]).__name__ for i in range(len(contacts)) if active[i]}
+            if episode["T0"] is None:
+                dT = T - T_prev
+                worst["dT"] = max(worst["dT"], dT / (1e-12 + T_prev))
+                if dT > 1e-9 * T_prev + etol:
+                    bad("energy_increase", f"{name}/none", f"step {k}: kinetic energy rises from {T_prev:.6e} to {T:.6e} (+{dT / T_prev:.2e}) in free flight of a force-free scene")
+                    return
+            elif not any_active or k == nt - 1:
+                dT = T - episode["T0"]
+                worst["dT"] = max(worst["dT"], dT / (1e-12 + episode["T0"]))
+                if dT > 1e-9 * episode["T0"] + etol:
+                    kinds = sorted(episode["kinds"]) or ["none"]
+                    bad(
+                        "energy_increase",
+                        f"{name}/{'+'.join(kinds)}",
+                        f"steps {episode['start']}..{k}: kinetic energy after the impact is {T:.6e}, before it {episode['T0']:.6e} (+{dT / episode['T0']:.2e}) in a force-free frictionless scene with e_N={B.scene['common_eN']}",
+                    )
+                    return
+                out["probes"]["impact_episode_energy_checked"] += 1
+                if episode["start"] is not None and k - episode["start"] >= 2:
+                    out["probes"]["impact_episode_longer_than_one_step"] += 1
+                if not any_active:
+                    episode.update(T0=None, start=None, kinds=set())
         T_prev = T
     log.ev("worst", name, worst["pen"], worst["xi"], worst["cone"], worst["slipdir"], worst["dT"])
     out["probes"][f"ran_{name}"] += 1
